@@ -24,7 +24,7 @@ import (
 // identifier from the echo request captured on the connection and injects the
 // scripted frames through Session.Parse.
 
-const c19Rule = "batches of concurrent scenarios; a scenario = 1..8 concurrent Ping/Ping6 calls, each with a script: matching reply at once | matching reply twice (replies carried in IP headers with DF, options, TOS/identification, traffic class/flow label, with 0 / 5 / 1000 bytes of echo data) | reply with a foreign identifier | echo REQUEST with the ping's identifier | another ICMP type (incl. the other family's reply type) with the identifier at the same offset | truncated ICMP (Parse error) | matching reply 400 ms later (while other pings of the scenario time out) | matching reply only after the time-out | nothing | send failure (wrong address family). oracle: nil <=> a matching reply was injected before the deadline (1 s time-outs for the positive scripts, 200 ms for the negative ones, and the arguments 0 and 11 s that are documented to mean 2 s; only lower bounds on latency); identifiers distinct; no waiter left once every call has returned. non-trivial = scenario with >= 2 concurrent pings and >= 1 non-matching reply; distinct by hash of the scenario"
+const c19Rule = "batches of concurrent scenarios; a scenario = 1..8 concurrent Ping/Ping6 calls, each with a script: matching reply at once | matching reply twice (replies carried in IP headers with DF, options, TOS/identification, traffic class/flow label, with 0 / 5 / 1000 bytes of echo data) | reply with a foreign identifier | echo REQUEST with the ping's identifier | another ICMP type (incl. the other family's reply type) with the identifier at the same offset | truncated ICMP (Parse error) | matching reply 400 ms later (while other pings of the scenario time out) | matching reply only after the time-out | nothing | send failure (wrong address family). oracle: nil <=> a matching reply was injected before the deadline (1 s time-outs for the positive scripts, 200 ms for the negative ones, and the arguments 0 and 11 s that are documented to mean 2 s; only lower bounds on latency); identifiers distinct; no waiter left once every call has returned; sub-check wraparound: the 16-bit identifier counter is driven to 65534, then six pings are pending at the same time across the wrap-around (distinct identifiers, each completed by its own reply). non-trivial = scenario with >= 2 concurrent pings and >= 1 non-matching reply; distinct by hash of the scenario"
 
 type c19Ping struct {
 	V6     bool   `json:"v6"`
